@@ -978,7 +978,10 @@ def _can_del_all(self: fst.FST, field: str, options: Mapping[str, Any]) -> bool:
     if field == 'finalbody':
         return bool(ast.handlers)
 
-    return ast.__class__ is _ExceptHandlers or bool(ast.finalbody)  # field == 'handlers'
+    if (ast_cls := ast.__class__) is _ExceptHandlers:  # field == 'handlers'
+        return True
+
+    return bool(ast.finalbody) and not ast.orelse and ast_cls is not TryStar  # 'try: else: finally:' is invalid and a TryStar without 'except*' handlers is a Try
 
 
 # ......................................................................................................................
@@ -1136,6 +1139,15 @@ def _put_slice_stmtlike_old(
 
     if (not put_fst or not put_body) and len_slice == len_body and not _can_del_all(self, field, options):
         raise ValueError(f'cannot delete all elements from {ast_cls.__name__}.{field} without norm_self=False')
+
+    if (field == 'orelse'
+        and put_fst
+        and put_body
+        and ast_cls in (Try, TryStar)
+        and not ast.handlers
+        and fst.FST._get_opt_eff_norm_self(options)
+    ):
+        raise ValueError(f'cannot put to {ast_cls.__name__}.orelse without handlers without norm_self=False')
 
     lines = root._lines
     fpre = body[start - 1].f if start else None
